@@ -580,7 +580,7 @@ func checkReplayCursor(w *World, r *Report, pr *procRoles) {
 	}
 	D := w.Nodes(g, pr.evDeliver(), false)
 	for _, d := range members(D) {
-		key := fmt.Sprintf("%s:deliver(%s)", fname(pr.invoke), callDesc(w, g.ins[d]))
+		key := fmt.Sprintf("%s:deliver[%s]", fname(pr.invoke), deliverySiteClass(w, g, d))
 		ok := g.Before(inc, d)
 		detail := "a delivery is reachable from the function entry without advancing the cursor: if it panics, the failing message is replayed"
 		if ok {
@@ -1175,7 +1175,7 @@ func checkC07(w *World, r *Report) {
 			}
 			n++
 			// acceptable only if the recover handler deals with the pill (it cannot today: it has no access to it)
-			r.Fail("C07.R6", fmt.Sprintf("%s:deliver-while-pill-held(%s)", fname(pr.invoke), callDesc(w, g.ins[d])),
+			r.Fail("C07.R6", fmt.Sprintf("%s:deliver-while-pill-held[%s]", fname(pr.invoke), deliverySiteClass(w, g, d)),
 				"no delivery can panic while a recognised pill is held, unless the recover handler cancels or re-buffers the pill", w.pos(g.ins[d].Pos()),
 				"if this delivery panics the recover handler rebuilds the restart buffer without the pill and never calls its cancel: the Poison context is never done and the actor keeps running")
 		}
